@@ -1001,6 +1001,7 @@ func main() {
 	only := fl.Int("only", -1, "run only the history with this index (replay)")
 	shardK := fl.Int("shard", 0, "run only histories with index % shards == shard")
 	shardN := fl.Int("shards", 1, "number of shards")
+	concurrent := fl.Bool("concurrent", false, "mode c02: also run histories with a real concurrent writer goroutine (schedule-dependent, not replayable)")
 	script := fl.String("script", "", "mode script: space-separated op tokens to run after OPEN (e.g. 'S CK-RESTART W ACK-TRUNCATE DDL SW')")
 	scriptCfg := fl.String("cfg", "4096,0,10,0,0,0", "mode script: ps,autovacuum,minCheckpointPageN,truncatePageN,checkpointIntervalNs,maxSyncWALBytes")
 	if err := fl.Parse(os.Args[1:]); err != nil {
@@ -1052,7 +1053,7 @@ func main() {
 		case "c02":
 			if i%3 == 2 {
 				err = runC02Preexisting(rc, dir, rng)
-			} else if i%3 == 1 {
+			} else if i%3 == 1 || !*concurrent {
 				err = runC02Injected(rc, dir, rng, *steps)
 			} else {
 				err = runC02(rc, dir, rng, *steps)
